@@ -39,9 +39,12 @@ func runC03(p *core.Prog, r *core.Report) {
 			core.Undecide("expected exactly one loop over the deltas slice in ApplyDeltasReverse, found %d", len(loops))
 		}
 		l := loops[0]
-		dir, _ := l.InductionDir()
+		dir := l.IndexDir(func(v ssa.Value) bool {
+			s, ok := v.Type().Underlying().(*types.Slice)
+			return ok && isStoreDeltaPtr(p, s.Elem())
+		})
 		r.Check(dir == -1, "C03.R1", "ApplyDeltasReverse/direction", "the deltas of an undone block are reversed last to first (descending index)",
-			fmt.Sprintf("induction direction is %+d", dir), p.Pos(l.Header.Instrs[0].Pos()))
+			fmt.Sprintf("the deltas are walked in direction %+d", dir), p.Pos(l.Header.Instrs[0].Pos()))
 		var bad []string
 		for _, e := range l.EarlyExits {
 			if l.ExitIsPanic(e) {
